@@ -364,6 +364,11 @@ YR_API void yr_scanner_destroy(YR_SCANNER* scanner)
   yr_free(scanner->profiling_info);
 #endif
 
+  // The notebook is still alive if the last scan returned
+  // ERROR_BLOCK_NOT_READY and was never resumed.
+  if (scanner->matches_notebook != NULL)
+    yr_notebook_destroy(scanner->matches_notebook);
+
   yr_free(scanner->rule_matches_flags);
   yr_free(scanner->ns_unsatisfied_flags);
   yr_free(scanner->required_eval);
@@ -497,6 +502,15 @@ YR_API int yr_scanner_scan_mem_blocks(
     // corresponding to the match). Each notebook's page can store up to 1024
     // matches.
     uint32_t max_match_data;
+
+    // If the previous scan returned ERROR_BLOCK_NOT_READY and the caller gave
+    // up instead of retrying, its matches and notebook are still around.
+    if (scanner->matches_notebook != NULL)
+    {
+      _yr_scanner_clean_matches(scanner);
+      yr_notebook_destroy(scanner->matches_notebook);
+      scanner->matches_notebook = NULL;
+    }
 
     FAIL_ON_ERROR(
         yr_get_configuration_uint32(YR_CONFIG_MAX_MATCH_DATA, &max_match_data));
